@@ -187,6 +187,17 @@ def name_class(rep, idx):
               f"returns {[ir.show(r) for r in rets]}")
 
 
+def own_walk(fn_node):
+    """ast.walk that does not descend into nested function definitions / lambdas."""
+    stack = list(ast.iter_child_nodes(fn_node))
+    while stack:
+        n = stack.pop()
+        yield n
+        if isinstance(n, (ast.FunctionDef, ast.AsyncFunctionDef, ast.Lambda)):
+            continue
+        stack.extend(ast.iter_child_nodes(n))
+
+
 def is_available(rep, idx):
     fi = idx.find_func("_Namespace.is_available")
     site = fi.site
@@ -203,11 +214,18 @@ def is_available(rep, idx):
     # ---- C18.3 taint: str() only in sort keys and messages ---------------------------------------------------
     nstr = 0
     bad = []
+    # local functions / lambdas that are only ever used as a sort key
+    key_funcs = {k.value.id for n in ast.walk(fi.node) if isinstance(n, ast.Call) for k in n.keywords
+                 if k.arg == "key" and isinstance(k.value, ast.Name)}
+    other_uses = {n.id for n in ast.walk(fi.node) if isinstance(n, ast.Name) and isinstance(n.ctx, ast.Load) and n.id in key_funcs and
+                  not isinstance(parents.get(n), ast.keyword)}
+    key_funcs -= other_uses
     for n in ast.walk(fi.node):
         if isinstance(n, ast.Call) and isinstance(n.func, ast.Name) and n.func.id in ("str", "repr"):
             nstr += 1
             anc = list(ancestors(n))
-            in_key = any(isinstance(a, ast.keyword) and a.arg == "key" for a in anc)
+            in_key = any(isinstance(a, ast.keyword) and a.arg == "key" for a in anc) or \
+                any(isinstance(a, ast.FunctionDef) and a.name in key_funcs for a in anc)
             in_msg = any(isinstance(a, ast.JoinedStr) for a in anc) or \
                 any(isinstance(a, ast.Call) and isinstance(a.func, ast.Attribute) and a.func.attr == "append" for a in anc)
             in_cmp = any(isinstance(a, ast.Compare) for a in anc) and not in_key
@@ -221,7 +239,7 @@ def is_available(rep, idx):
     else:
         rep.ok("C18.3", site, "string conversions flow only into sort keys and messages", f"{nstr} str()/repr() call(s) checked")
     # ---- C18.4 monotone verdict ---------------------------------------------------------------------------------
-    rets = [n for n in ast.walk(fi.node) if isinstance(n, ast.Return) and n.value is not None]
+    rets = [n for n in own_walk(fi.node) if isinstance(n, ast.Return) and n.value is not None]
     flag = None
     if len(rets) == 1 and isinstance(rets[0].value, ast.UnaryOp) and isinstance(rets[0].value.op, ast.Not) and \
             isinstance(rets[0].value.operand, ast.Name):
@@ -229,7 +247,7 @@ def is_available(rep, idx):
     rep.check(flag is not None, "C18.4", site, "the verdict is `not <conflict flag>` and there is no early return",
               f"returns: {[ast.unparse(r.value) for r in rets]}")
     if flag:
-        stores = [n for n in ast.walk(fi.node) if isinstance(n, (ast.Assign, ast.AugAssign)) and
+        stores = [n for n in own_walk(fi.node) if isinstance(n, (ast.Assign, ast.AugAssign)) and
                   any(isinstance(t, ast.Name) and t.id == flag for t in (n.targets if isinstance(n, ast.Assign) else [n.target]))]
         init = [s for s in stores if not any(isinstance(a, (ast.For, ast.While)) for a in ancestors(s))]
         inner = [s for s in stores if s not in init]
@@ -275,6 +293,21 @@ def prefix_idiom(rep, fi, flag, idx=None):
                                         rep.ok("C18.5", site, "prefix test is all(a[i] == b[i] for i in range(min(len(a), len(b))))", ir.show(x)[:120])
                                         rep.ok("C18.5", site, "comparison length is the shorter name", ir.show(hi), nontrivial=False)
                                         return
+        if c is not None:
+            for cond, gen, ln in c.t.conds:
+                cn = c.norm(cond)
+                subs = [x for x in ir.walk(cn) if x[0] == 'sub' and x[2][0] == 'slice']
+                if len(subs) == 2 and subs[0][2] == subs[1][2] and subs[0][1] != subs[1][1] and subs[0][2][1] == ('const', 0):
+                    A_, B_, K_ = subs[0][1], subs[1][1], subs[0][2][2]
+                    wantk = {ir.norm(ir.parse("min(len(a), len(b))", {"a": A_, "b": B_})), ir.norm(ir.parse("min(len(a), len(b))", {"a": B_, "b": A_}))}
+                    if K_ in wantk and any(x[0] == 'cmp' and x[1] in ('==', '!=') for x in ir.walk(cn)):
+                        rep.ok("C18.5", site, "prefix test compares a[:k] with b[:k], k = min(len(a), len(b))", ir.show(cn)[:120])
+                        rep.ok("C18.5", site, "comparison length is the shorter name", ir.show(K_), nontrivial=False)
+                        return
+                    if K_[0] == 'call' and K_[1] == ('name', 'max'):
+                        rep.bad("C18.5", site, f"prefix test `{ir.show(cn)[:80]}`", "max instead of min: slices of different length never compare equal, "
+                                "so a proper prefix is never reported")
+                        return
         if slice_form is not None:
             a, b = slice_form.left, slice_form.comparators[0]
             ka = ir.norm(ir.from_ast(a.slice, {}))
